@@ -67,6 +67,12 @@ FlagsOf(op, s) ==
     [] op = "CompleteTask" -> [NoFlags EXCEPT !.completed = (s = 20100)]
     [] OTHER -> NoFlags
 
+\* the five promise states (numbers of pkg/promise) and the one name each has on both wires
+StateName(k) ==
+  CASE k = 1 -> "PENDING" [] k = 2 -> "RESOLVED" [] k = 4 -> "REJECTED"
+    [] k = 8 -> "REJECTED_CANCELED" [] k = 16 -> "REJECTED_TIMEDOUT"
+StateNames(ks) == [i \in DOMAIN ks |-> StateName(ks[i])]
+
 \* an observation o (as recorded by frontx) against the rules
 NoDrop(o) == o.replied /\ ~ o.dead /\ o.reached
 HttpOK(o) ==
